@@ -5,12 +5,12 @@ from fractions import Fraction as F
 import trio
 import trio.testing
 
-from .. import corr
+from .. import corr, vclock
 from ..num import wire, unwire, canon
 from ..pools import RecPool
 from . import C08
 
-STREAMS = ["linear", "rel", "switch", "stepwise", "buffer", "factory", "factory_env"]
+STREAMS = ["linear", "rel", "switch", "stepwise", "buffer", "factory", "factory_env", "buffer_float"]
 RULE = ("every shipped periodic service is run by trio.run(run, clock=MockClock(autojump_threshold=0)) next to a "
         "scripted environment task; intervals / windows are dyadic, 20..120 periods (thorough up to 500); environment "
         "actions (pool state changes, demand writes through a Buffer) are placed before, on and after period "
@@ -112,6 +112,15 @@ def gen_case(rng, stream, maxp):
     elif stream == "factory":
         case["script"] = []
         return case
+    elif stream == "buffer_float":
+        # windows that are not binary fractions, a service that starts late: the model's exact times do not
+        # apply (float sums), the oracle allows 1e-6 - what matters is that every window gets its flush
+        case["kind"] = "buffer_float"
+        case["window"] = rng.choice([0.1, 0.3, 0.7, 1.0, 2.5, 10.0, 1 / 3])
+        case["start"] = rng.choice([0.0, 0.0, 0.3, 0.05, 1.7])
+        case["periods"] = rng.randint(5, 40)
+        case["writes"] = [[k, rng.randint(0, 50)] for k in range(case["periods"]) if rng.random() < 0.6]
+        return case
     elif stream == "factory_env":
         # between boundaries: demand goes up / down / stays, children disable themselves or lower
         # their own demand (their supply stays) - so that supply == demand, supply > demand and
@@ -165,6 +174,8 @@ def impl(case):
         return impl_factory(case, interval, duration)
     if kind == "factory_env":
         return impl_factory_env(case, interval, duration)
+    if kind == "buffer_float":
+        return impl_buffer_float(case)
     p = case["pool"]
     pool = TimedPool(unwire(p["supply"]), unwire(p["demand"]), unwire(p["util"]), unwire(p["alloc"]))
     calls = []
@@ -202,7 +213,7 @@ def impl(case):
                 nursery.start_soon(runner)
                 nursery.start_soon(env)
 
-    trio.run(main, clock=trio.testing.MockClock(autojump_threshold=0))
+    vclock.run(main)
     # fold the raw log into events: step (marker + following writes) / env
     marker = MARKER[kind]
     events, times, demands, target_writes = [], [], [], []
@@ -260,9 +271,56 @@ def impl_factory(case, interval, duration):
                 nursery.start_soon(env)
                 nursery.start_soon(runner)
 
-    trio.run(main, clock=trio.testing.MockClock(autojump_threshold=0))
+    vclock.run(main)
     return {"ctor": "ok", "events": [["step"]] * len(times), "step_times": [canon(F(t)) for t in times], "demands": [],
             "error": err[0] if err else None, "target_writes": [], "init": {}}
+
+
+def impl_buffer_float(case):
+    from cobald.decorator.buffer import Buffer
+    w, start = case["window"], case["start"]
+    pool = RecPool(1, 0, 1, 1)
+    writes = []          # (time, value) of every write that reaches the target
+    orig = type(pool).demand.fset
+
+    class P(RecPool):
+        @property
+        def demand(self):
+            return self._demand
+
+        @demand.setter
+        def demand(self, v):
+            writes.append((trio.current_time(), v))
+            self._demand = v
+    pool = P(1, 0, 1, 1)
+    buf = Buffer(pool, window=w)
+    env_writes, err = [], []
+
+    async def runner():
+        await trio.sleep(start)
+        try:
+            await buf.run()
+        except trio.Cancelled:
+            raise
+        except BaseException as e:
+            err.append(type(e).__name__)
+
+    async def env():
+        t0 = trio.current_time()
+        for k, v in case["writes"]:
+            await trio.sleep_until(t0 + start + (k + 0.5) * w)
+            env_writes.append((trio.current_time(), v))
+            buf.demand = v
+
+    async def main():
+        with trio.move_on_after(start + case["periods"] * w + w / 4):
+            async with trio.open_nursery() as nursery:
+                nursery.start_soon(runner)
+                nursery.start_soon(env)
+
+    vclock.run(main, limit=200000)
+    return {"ctor": "ok", "error": err[0] if err else None, "writes": writes, "env": env_writes, "events": [], "step_times": [], "demands": [],
+            "target_writes": [], "init": {}}
 
 
 def impl_factory_env(case, interval, duration):
@@ -340,13 +398,13 @@ def impl_factory_env(case, interval, duration):
                 await env()
                 nursery.cancel_scope.cancel()
 
-    trio.run(main, clock=trio.testing.MockClock(autojump_threshold=0))
+    vclock.run(main)
     return {"ctor": "ok", "events": [], "step_times": [], "demands": [], "error": err[0] if err else None,
             "target_writes": [], "init": {}, "samples": samples, "trace": trace, "obs": obs}
 
 
 def line(case, o):
-    if o.get("ctor") != "ok":
+    if o.get("ctor") != "ok" or case["kind"] == "buffer_float":
         return None
     if case["kind"] == "factory_env":
         return {"kind": "factory_env", "children": [], "ops": o["trace"],
@@ -381,6 +439,30 @@ def oracle(case, o):
     interval = unwire(case["interval"])
     if o["error"]:
         out.append(("run-raised:%s:%s" % (kind, o["error"]), "%s.run() raised %s on a well-behaved pool" % (kind, o["error"])))
+    if kind == "buffer_float":
+        w, start = case["window"], case["start"]
+        if o["error"]:
+            return [("run-raised:buffer:%s" % o["error"], "Buffer.run() raised %s" % o["error"])]
+        for t, v in o["writes"]:
+            x = (t - start) / w
+            if abs(x - round(x)) > 1e-6:
+                out.append(("buffer-not-quiet", "window %r started at %r: the target was written at %r, between boundaries" % (w, start, t)))
+                return out
+        # at the boundary after each write of a new value the target gets it
+        last = 0
+        for te, v in o["env"]:
+            k = int((te - start) / w) + 1                    # the next boundary
+            tb = start + k * w
+            if tb > start + case["periods"] * w:
+                continue
+            later = [x for x in o["env"] if te < x[0] < tb - 1e-9]
+            if later:
+                continue
+            if v != last and not any(abs(t - tb) < 1e-6 and val == v for t, val in o["writes"]):
+                out.append(("buffer-flush", "window %r started at %r: %r written at %r did not reach the target at the boundary %r" % (w, start, v, te, tb)))
+                return out
+            last = v
+        return out
     if kind == "factory_env":
         # after every boundary the adjustment has been made: no active child without demand, nobody both
         # active and released, and - whenever the pool had less supply than requested or exactly as much
@@ -433,6 +515,8 @@ def nontrivial(case, o):
 
 
 def shrinks(case):
+    if case["kind"] == "buffer_float":
+        return
     if case["kind"] == "factory_env":
         sc = case["script"]
         if len(sc) > 1:
@@ -452,7 +536,7 @@ def shrinks(case):
 def run(ctx):
     for s in STREAMS:
         rng = ctx.rng(s)
-        n = ctx.n(60, 500) if not s.startswith("factory") else (ctx.n(10, 60) if s == "factory" else ctx.n(40, 400))
+        n = ctx.n(60, 500) if not s.startswith("factory") else (ctx.n(10, 60) if s == "factory" else ctx.n(40, 400)) if s != "buffer_float" else ctx.n(60, 600)
         cases = [gen_case(rng, s, ctx.n(120, 500)) for _ in range(n)]
         corr.run_stream(ctx, s, cases, impl, line, oracle, nontrivial, shrinks, expect)
 
